@@ -171,6 +171,20 @@ pub fn run_recipes<C>(seed: u64, cases: u64, threads: usize, stream: u64, check:
 where
     C: Fn(&Recipe, &mut Stats) -> Result<(), Failure> + Sync,
 {
+    // every check is a pure function of the recipe, so a failure that does not reproduce when the
+    // shrunk recipe is re-run means the code under test depended on earlier calls: the first
+    // observation was judged by a sound oracle and is reported as such
+    run_recipes_opt(seed, cases, threads, stream, true, check)
+}
+
+/// `history_dependent`: the property itself is about independence from earlier
+/// calls (C16), so a failure that does not reproduce when the shrunk recipe is
+/// re-run in isolation is still a violation: the first observed failure is
+/// reported (for every other property that situation is a harness error).
+pub fn run_recipes_opt<C>(seed: u64, cases: u64, threads: usize, stream: u64, history_dependent: bool, check: C) -> PropResult
+where
+    C: Fn(&Recipe, &mut Stats) -> Result<(), Failure> + Sync,
+{
     let stop = AtomicBool::new(false);
     let per = (cases + threads as u64 - 1) / threads as u64;
     let results: Vec<(Stats, Option<(Option<Recipe>, Failure)>)> = std::thread::scope(|s| {
@@ -193,6 +207,7 @@ where
                         let mut runner = TestRunner::new(config);
                         let stats = RefCell::new(Stats::default());
                         let failed = std::cell::Cell::new(false);
+                        let first_failure: RefCell<Option<(Recipe, Failure)>> = RefCell::new(None);
                         let trace: Option<PathBuf> = std::env::var("MLV_TRACE_DIR").ok().map(|d| PathBuf::from(d).join(format!("s{stream}-w{w}.json")));
                         let res = runner.run(&recipe_strategy(), |r| {
                             if let Some(t) = &trace {
@@ -216,7 +231,9 @@ where
                                 Err(f) => {
                                     failed.set(true);
                                     stop.store(true, Ordering::Relaxed);
-                                    Err(TestCaseError::fail(f.message))
+                                    let msg = f.message.clone();
+                                    *first_failure.borrow_mut() = Some((r.clone(), f));
+                                    Err(TestCaseError::fail(msg))
                                 }
                             }
                         });
@@ -226,10 +243,16 @@ where
                                 let mut scratch = Stats::default();
                                 match check(&recipe, &mut scratch) {
                                     Err(f) => Some((Some(recipe), f)),
-                                    Ok(()) => Some((
-                                        Some(recipe),
-                                        Failure::harness("shrunk recipe no longer fails (non-deterministic check?)".into(), json!({})),
-                                    )),
+                                    Ok(()) => match (history_dependent, first_failure.borrow_mut().take()) {
+                                        (true, Some((r0, mut f0))) => {
+                                            f0.message = format!("{} [observed once; does not reproduce when re-run in isolation, i.e. the result depended on the call history]", f0.message);
+                                            Some((Some(r0), f0))
+                                        }
+                                        _ => Some((
+                                            Some(recipe),
+                                            Failure::harness("shrunk recipe no longer fails (non-deterministic check?)".into(), json!({})),
+                                        )),
+                                    },
                                 }
                             }
                             Err(TestError::Abort(reason)) => Some((None, Failure::harness(format!("proptest aborted: {reason}"), json!({})))),
